@@ -25,6 +25,9 @@ ALL = ["C%02d" % i for i in range(1, 18)]
 def sh(cmd, cwd=None, timeout=1800, env=None):
     e = dict(os.environ)
     e["CARGO_NET_OFFLINE"] = "true"
+    if cwd and str(cwd).startswith("/tmp/seed/"):
+        # one shared target directory for all scratch worktrees: dependencies are compiled once
+        e["CARGO_TARGET_DIR"] = "/tmp/seed/target"
     if env:
         e.update(env)
     p = subprocess.run(cmd, cwd=cwd, shell=isinstance(cmd, str), stdout=subprocess.PIPE, stderr=subprocess.STDOUT, text=True,
@@ -132,10 +135,21 @@ def main():
     results = run_checks(os.path.join(dest, "patch.diff"), checks)
     caught = [p for p, r in results.items() if r["violations"]]
     notes = open(os.path.join(cand, "notes.md")).read() if os.path.exists(os.path.join(cand, "notes.md")) else ""
+    history = []
+    old = os.path.join(dest, "meta.json")
+    if os.path.exists(old):
+        try:
+            om = json.load(open(old))
+            history = om.get("history", [])
+            if om.get("caught_by") != caught:
+                note = sys.argv[sys.argv.index("--strengthened") + 1] if "--strengthened" in sys.argv else ""
+                history.append(dict(caught_by=om.get("caught_by", []), checks_run=sorted(om.get("checks", {})), strengthened=note))
+        except Exception:
+            pass
     meta = dict(id=name, breaks_property=pid, produced_by="independent sub-agent given only the property text and a scratch worktree",
                 needs_to_manifest=notes[:1500], confirmed=info,
                 what_was_run="tools/seed_eval.py: confirmed in the scratch worktree (build with/without hooks, 99 tests, demonstration fails with / passes without the change); then `git -C /repo apply patch.diff`, every registered quick check, `git -C /repo checkout -- .`",
-                checks=results, caught_by=caught, caught_by_target=pid in caught)
+                checks=results, caught_by=caught, caught_by_target=pid in caught, history=history)
     json.dump(meta, open(os.path.join(dest, "meta.json"), "w"), indent=1, ensure_ascii=False)
     print(name, "caught by:", caught)
     return 0
